@@ -116,6 +116,10 @@ def ret_atom(e, ret, fields):
         return ('?', 'no value')
     if ret[0] == 'int' and ret[1] in (0, 1):
         return ('const', bool(ret[1]))
+    if ret in (('param', 3), ('param', 4)):
+        return ('flag', ret[1], True)          # `.. && as_range` evaluated last: the flag itself is the result
+    if ret[0] == 'un' and ret[1] == 'Not' and ret[2] in (('param', 3), ('param', 4)):
+        return ('flag', ret[2][1], False)
     if ret[0] == 'pure' and ret[1] == 'eq':
         a, b = ret[2]
         pa, pb = terms.access_path(a), terms.access_path(b)
@@ -179,6 +183,10 @@ def check_truth_table(prog, fn, fields, rep, key, what, opaque=()):
                 for f in fields:
                     vals[f.name] = {((r1 and is_empty_state(a)) or (r2 and is_empty_state(bb)) or q) for a, bb, q in triples[f.name]}
                 nval += 1
+                r0 = r
+                if r[0] == 'flag':
+                    fv = r1 if r[1] == 3 else r2
+                    r = ('const', fv if r[2] else not fv)
                 if r[0] == 'const':
                     if r[1]:
                         wrong = [f.name for f in fields if vals[f.name] != {True}]
@@ -196,6 +204,7 @@ def check_truth_table(prog, fn, fields, rep, key, what, opaque=()):
                         if ((r1 and is_empty_state(a)) or (r2 and is_empty_state(bb)) or q) != q:
                             bad.append('returns %s equality where the wildcard rule applies (flags %s/%s, states %s/%s)' % (g.name, r1, r2, a, bb))
                             break
+                r = r0
     und = {k: v for k, v in e.unmodelled.items()}
     if und:
         bad.append('INCONCLUSIVE(unmodelled callee %s)' % list(und)[0])
